@@ -12,6 +12,7 @@ from harness.framework import cbool, cnatlist, pmap
 from harness.progrun import run_program
 
 LEVEL = "proof"
+TRANSLATED_KERNELS = ["index.chunk_len_for_indexer", "index.merged_chunk_len_for_indexer", "_index_num_input_blocks"]   # harness/translate.py: per-axis arithmetic of basic indexing re-translated from /repo on every run and proved equal to Model.IndexGuard (= Model.StridedIndex on canonical slices)
 RULE = ("O: generated programs over all op families of harness/gen_programs.py (0-3 dims, size-0/1 dims, independently chunked "
         "inputs, uneven last chunks, single-element chunks, several outputs, sharing) evaluated by cubed (adversarial sequential "
         "executor, threads, processes in thorough; optimize_graph on/off) and by NumPy on the same integer-valued data; shape and "
